@@ -84,6 +84,12 @@ def make_members(rng, fam, n, nb, differ):
     return Ks, metas
 
 
+def prior_tol_for(tol):
+    """history on ONE operator object: the tolerance in force during an earlier, otherwise identical call —
+    far on the other side of the one the observed call runs under"""
+    return 0.5 if tol < 1e-2 else 1e-10
+
+
 def pc_grid(ctx):
     rng = random.Random(ctx.seed * 7919 + 17)
     sizes = {"full": [1, 2, 3, 4, 5, 6, 8], "lowrank": [2, 3, 4, 6, 7], "lowrank_mixed": [3, 5], "tied_kernel": [2, 3, 5, 6, 8],
@@ -118,8 +124,11 @@ def pc_grid(ctx):
                         for rank in ranks:
                             etol = tols[cnt % 3]
                             st_tol = st_tols[(cnt // 3) % 3] if etol is None else 1e-3
-                            cases.append({"kind": "pc", "fam": fam, "n": n, "batch": list(bs), "cls": cls,
-                                          "rank": rank, "etol": etol, "st_tol": st_tol, "vseed": rng.randrange(1 << 30)})
+                            c = {"kind": "pc", "fam": fam, "n": n, "batch": list(bs), "cls": cls,
+                                 "rank": rank, "etol": etol, "st_tol": st_tol, "vseed": rng.randrange(1 << 30)}
+                            if etol is None and cnt % 2 == 0:
+                                c["prior_tol"] = prior_tol_for(st_tol)
+                            cases.append(c)
                             cnt += 1
     # guard sweep: loose tolerances, where the 1-norm of the residual diagonal relative to the largest ORIGINAL diagonal
     # entry decides the stopping iteration (other norms / normalisations / stale values stop somewhere else)
@@ -128,9 +137,14 @@ def pc_grid(ctx):
             for bs in ((), (2,), (3,)):
                 for etol in (0.5, 0.25, 0.1, 0.05):
                     use_setting = cnt % 4 == 3
-                    cases.append({"kind": "pc", "fam": fam, "n": n, "batch": list(bs), "cls": "Dense", "rank": n,
-                                  "etol": None if use_setting else etol, "st_tol": etol if use_setting else 1e-3,
-                                  "vseed": rng.randrange(1 << 30), "sweep": True})
+                    c = {"kind": "pc", "fam": fam, "n": n, "batch": list(bs), "cls": "Dense", "rank": n,
+                         "etol": None if use_setting else etol, "st_tol": etol if use_setting else 1e-3,
+                         "vseed": rng.randrange(1 << 30), "sweep": True}
+                    if use_setting:
+                        c["prior_tol"] = prior_tol_for(etol)
+                    if bs and cnt % 2 == 0:
+                        c["member_scale"] = True       # member b lives on the scale 2^(-7 b): largest diagonal entries differ 128x
+                    cases.append(c)
                     cnt += 1
     return cases
 
@@ -140,6 +154,8 @@ def materialise_pc(case):
     rng = random.Random(case["vseed"])
     nb = nbatch(case["batch"])
     Ks, metas = make_members(rng, case["fam"], case["n"], nb, True)
+    if case.get("member_scale"):
+        Ks = [K * (2.0 ** (-7 * b)) for b, K in enumerate(Ks)]
     return Ks, metas
 
 
@@ -151,6 +167,14 @@ def run_pc(case, Ks, metas):
     if op is None:
         return None
     n = case["n"]
+    if case.get("prior_tol") is not None:
+        # an earlier identical call on the same operator object under another tolerance must not influence this one
+        with settings.preconditioner_tolerance(case["prior_tol"]), warnings.catch_warnings():
+            warnings.simplefilter("ignore")
+            try:
+                op.pivoted_cholesky(case["rank"], error_tol=case["etol"], return_pivots=True)
+            except Exception:
+                pass
     with settings.preconditioner_tolerance(case["st_tol"]), warnings.catch_warnings():
         warnings.simplefilter("ignore")
         try:
@@ -270,6 +294,7 @@ def pre_grid(ctx):
                             cls = "Dense"
                         cases.append({"kind": "pre", "fam": fam, "n": n, "batch": list(bs), "cls": cls, "dkind": dk,
                                       "max_size": mx, "min_size": mn, "tol": tol, "route": route, "twice": cnt % 4 == 1,
+                                      "prior_tol": prior_tol_for(tol) if cnt % 3 == 2 else None,
                                       "vseed": rng.randrange(1 << 30)})
                         cnt += 1
     # special cells
@@ -362,6 +387,15 @@ def run_pre(case, Ks, metas, Dspec, Ds):
         return None
     kind, raw = Dspec
     Dop = O.ConstantDiagLinearOperator(raw.clone(), n) if kind == "constdiag" else O.DiagLinearOperator(raw.clone())
+    if case.get("prior_tol") is not None and case["max_size"] > 0:
+        # history: the same K object was factorised before (by another K + D) under another tolerance
+        with settings.max_preconditioner_size(case["max_size"]), settings.min_preconditioning_size(1), \
+                settings.preconditioner_tolerance(case["prior_tol"]), warnings.catch_warnings():
+            warnings.simplefilter("ignore")
+            try:
+                O.AddedDiagLinearOperator(Kop, O.DiagLinearOperator(torch.ones(n, dtype=G.DT)))._preconditioner()
+            except Exception:
+                pass
     route = case["route"]
     with warnings.catch_warnings():
         warnings.simplefilter("ignore")
@@ -455,7 +489,42 @@ def pre_direct(case, Ks, Ds, obs):
         Lref = torch.tensor(ref[1][b][0], dtype=G.DT).reshape(n, ref[0])
         f = G.check_precond_member(K, torch.tensor(Ds[b], dtype=G.DT), Lref, obs["clI"][b], obs["P"][b], obs["ld"][b].item())
         fails += [(code, "member %d: %s" % (b, x)) for code, x in f]
+    if fails and obs["shape_ok"] and case["fam"] != "indefinite":
+        # The reference breaks exact ties towards the first maximum.  The property only asks for SOME greedy pivoted
+        # Cholesky factor: if the library's own factor (fresh operator, same settings) is a valid one (all C10 predicates)
+        # and the preconditioner is exact for it, this is a tie-rule difference, left to the model correspondence.
+        alt = pre_direct_with_library_factor(case, Ks, Ds, obs)
+        if alt is not None and not alt:
+            return []
     return fails
+
+
+def pre_direct_with_library_factor(case, Ks, Ds, obs):
+    torch = _torch()
+    from linear_operator import settings
+    n = case["n"]
+    try:
+        _, metas = materialise_pre(case)[:2]
+        Kop = G.build_op(case["cls"], Ks if not case["dkind"].startswith("ubK_bD") else Ks[:1], metas if not case["dkind"].startswith("ubK_bD") else metas[:1],
+                         tuple(case["batch"]), case["fam"])
+        with settings.preconditioner_tolerance(case["tol"]), warnings.catch_warnings():
+            warnings.simplefilter("ignore")
+            L, p = Kop.pivoted_cholesky(case["max_size"], return_pivots=True)
+        r = L.shape[-1]
+        Ls = L.reshape(-1, n, r)
+        perms = p.reshape(-1, n).tolist()
+        if len(Ls) == 1 and len(Ks) > 1:
+            Ls, perms = [Ls[0]] * len(Ks), perms * len(Ks)
+        fails = []
+        for b, K in enumerate(Ks):
+            f, _ = G.check_pc_member(K, Ls[b], perms[b], r)
+            fails += f
+        fails += [("guard", x) for x in G.check_pc_guard(Ks, list(Ls), perms, r, case["max_size"], case["tol"])]
+        for b, K in enumerate(Ks):
+            fails += G.check_precond_member(K, torch.tensor(Ds[b], dtype=G.DT), Ls[b], obs["clI"][b], obs["P"][b], obs["ld"][b].item())
+        return fails
+    except Exception:
+        return None
 
 
 # ------------------------------------------------------------------------------------------------
